@@ -186,8 +186,7 @@ def _install_public(g: GCodeBuilder, pre) -> None:
             raise Unreachable("fresh state has no remembered parameters")
         if pre["relative"]:
             g.set_distance_mode("relative")
-        if pre["feed"] != 0:
-            g.set_feed_rate(pre["feed"])
+        g.set_feed_rate(pre["feed"])
         # stale spin/power fields: switch on and off again
         tool = pre["tool"]
         if SpinMode(pre["stale_spin"]) != SpinMode.OFF and not (tool and tool[0] == "spin"):
@@ -202,7 +201,7 @@ def _install_public(g: GCodeBuilder, pre) -> None:
                 g.tool_on(m, pre["power"])
             else:
                 g.power_on(m, pre["power"])
-        elif pre["power"] != 0:
+        else:
             g.set_tool_power(pre["power"])
         if pre["coolant"] is not None:
             g.coolant_on(pre["coolant"])
